@@ -122,24 +122,50 @@ type c08Universe struct {
 	pats     []string
 	ref      [][]bool // [pattern][name] reference glob
 	impl     [][]bool // [pattern][name] real matcher, trie holding only that pattern, fresh per pair
-	nShort   int      // number of names of length <= 3 (a prefix of names)
+	nShort   int      // number of names with a mask bit (a prefix of names): length <= 3, then the edge names
 	refMask  []uint32 // per pattern: bit i set iff ref[p][i], i < nShort
 	implMask []uint32
 	nPat2    int // number of patterns of length <= 2 (a prefix of pats)
 	nPat3    int // number of patterns of length <= 3
+	// names[nPlainShort:nShort] are the edge names; pats[nPlainPats:] the edge patterns
+	nPlainShort int
+	nPlainPats  int
 }
 
 func c08Case(name string) *conformancev1.TestCase {
 	return &conformancev1.TestCase{Request: &conformancev1.ClientCompatRequest{TestName: name}}
 }
 
+// Edge alphabet: the empty string and strings with empty components. Splitting
+// at slashes gives "" one component (the empty one), "a//b" three, "/a" and
+// "a/" two; the glob definition applies to them as to any other component:
+// the pattern "" equals the name "" and nothing else, `*` stands for an empty
+// component too. A pattern is whatever text was supplied (an unset shell
+// variable supplies ""), so these take part like every other pattern.
+var (
+	c08EdgeNames    = []string{"", "a/", "/a", "a//b"}                    //nolint:gochecknoglobals
+	c08EdgePatterns = []string{"", "a//b", "/a", "a/", "*/", "/**", "//"} //nolint:gochecknoglobals
+)
+
+// c08AllNames: the names over {a,b} of length <= 3, the edge names, the names of
+// length 4. The first nShort = 14 + len(c08EdgeNames) of them have mask bits.
+func c08AllNames() (names []string, nShort, nPlainShort int) {
+	plain := c08Seqs([]string{"a", "b"}, 4)
+	nPlainShort = c08CountSeqs(2, 3)
+	names = append(names, plain[:nPlainShort]...)
+	names = append(names, c08EdgeNames...)
+	names = append(names, plain[nPlainShort:]...)
+	return names, nPlainShort + len(c08EdgeNames), nPlainShort
+}
+
 func c08NewUniverse() *c08Universe {
 	u := &c08Universe{}
-	u.names = c08Seqs([]string{"a", "b"}, 4)
-	u.nShort = c08CountSeqs(2, 3)
+	u.names, u.nShort, u.nPlainShort = c08AllNames()
 	u.pats = c08Seqs([]string{"a", "b", "*", "**"}, 4)
 	u.nPat2 = c08CountSeqs(4, 2)
 	u.nPat3 = c08CountSeqs(4, 3)
+	u.nPlainPats = len(u.pats)
+	u.pats = append(u.pats, c08EdgePatterns...) // at the end: the prefixes nPat2 / nPat3 stay what they were
 	for _, n := range u.names {
 		u.cases = append(u.cases, c08Case(n))
 	}
@@ -266,6 +292,15 @@ func c08Outcome(failing, flaky []string, name string) (isFailing, isFlaky bool, 
 	res.setOutcome(name, false, nil)
 	o := res.outcomes[name]
 	return o.knownFailing, o.knownFlaky, ""
+}
+
+// c08UnmatchedKey: no error at all, or an error that lists other strings but
+// not the pattern that matches nothing.
+func c08UnmatchedKey(isErr bool) string {
+	if isErr {
+		return "unmatched-not-reported.error-does-not-name-it"
+	}
+	return "unmatched-not-reported"
 }
 
 type c08TryResult struct {
@@ -446,6 +481,20 @@ func (c *c08Run) phaseMatch() {
 			}
 		}
 	}
+	// size 3 with an edge pattern in each position, the other two of length 1
+	for e := u.nPlainPats; e < len(u.pats); e++ {
+		for p := 0; p < 4; p++ {
+			for q := 0; q < 4; q++ {
+				if p == q || !c.next() {
+					continue
+				}
+				c.matchSet([]int{e, p, q})
+				c.matchSet([]int{p, e, q})
+				c.matchSet([]int{p, q, e})
+				r.Count("sets-size3-with-edge-pattern", 3)
+			}
+		}
+	}
 }
 
 // phaseOutcome: a finished case is flagged known-failing / known-flaky iff it
@@ -602,18 +651,30 @@ func (u *c08Universe) nameSets() []c08NameSet {
 		out = append(out, ns)
 	}
 	add()
-	for i := 0; i < u.nShort; i++ {
+	n := u.nPlainShort
+	for i := 0; i < n; i++ {
 		add(i)
 	}
-	for i := 0; i < u.nShort; i++ {
-		for j := i + 1; j < u.nShort; j++ {
+	for i := 0; i < n; i++ {
+		for j := i + 1; j < n; j++ {
 			add(i, j)
 		}
 	}
-	for i := 0; i < u.nShort; i++ {
-		for j := i + 1; j < u.nShort; j++ {
-			for l := j + 1; l < u.nShort; l++ {
+	for i := 0; i < n; i++ {
+		for j := i + 1; j < n; j++ {
+			for l := j + 1; l < n; l++ {
 				add(i, j, l)
+			}
+		}
+	}
+	// libraries of one or two names with at least one edge name
+	for e := n; e < u.nShort; e++ {
+		add(e)
+	}
+	for e := n; e < u.nShort; e++ {
+		for j := 0; j < u.nShort; j++ {
+			if j < n || j > e {
+				add(e, j)
 			}
 		}
 	}
@@ -666,7 +727,7 @@ func (c *c08Run) tryOne(set []int, nameSets []c08NameSet) {
 		}
 		for _, p := range unmatched {
 			if !res.isErr || !res.named[p] {
-				c08Composite(r, "unmatched-not-reported", via,
+				c08Composite(r, c08UnmatchedKey(res.isErr), via,
 					fmt.Sprintf("patterns %q, library %q: %q matches no name but is not reported (error: %q)", pats, ns.names, p, res.errText), rp)
 			}
 		}
@@ -720,6 +781,19 @@ func (c *c08Run) phaseTry() {
 			c.r.Count("try-sets-size2", 1)
 		}
 	}
+	// an edge pattern next to an ordinary one (length <= 2) or another edge pattern, both orders
+	if n < len(u.pats) {
+		for e := u.nPlainPats; e < len(u.pats); e++ {
+			for q := 0; q < len(u.pats); q++ {
+				if q == e || (q >= u.nPat2 && q < u.nPlainPats) || !c.next() {
+					continue
+				}
+				c.tryOne([]int{e, q}, nameSets)
+				c.tryOne([]int{q, e}, nameSets)
+				c.r.Count("try-sets-size2-with-edge-pattern", 2)
+			}
+		}
+	}
 }
 
 func c08ReplayMatchUnit(r *rep.Report, rp c08Replay) {
@@ -752,7 +826,7 @@ func c08ReplayMatchUnit(r *rep.Report, rp c08Replay) {
 				fmt.Sprintf("run=%q skip=%q, case %q: filter.accept=%v, reference %v", rp.Run, rp.Skip, rp.Name, got, want), rp)
 		}
 	case "apply":
-		names := c08Seqs([]string{"a", "b"}, 4)
+		names, _, _ := c08AllNames()
 		var cases []*conformancev1.TestCase
 		var want []string
 		for _, n := range names {
@@ -813,7 +887,7 @@ func c08ReplayMatchUnit(r *rep.Report, rp c08Replay) {
 			if !any {
 				unmatched = append(unmatched, p)
 				if !res.isErr || !res.named[p] {
-					c08Composite(r, "unmatched-not-reported", via, fmt.Sprintf("patterns %q, library %q: %q matches no name but is not reported (error: %q)", rp.Patterns, rp.Names, p, res.errText), rp)
+					c08Composite(r, c08UnmatchedKey(res.isErr), via, fmt.Sprintf("patterns %q, library %q: %q matches no name but is not reported (error: %q)", rp.Patterns, rp.Names, p, res.errText), rp)
 				}
 			}
 		}
@@ -840,12 +914,13 @@ func c08ParseReplay(t *testing.T, data []byte) c08Replay {
 func TestVerifC08Match(t *testing.T) {
 	r := rep.New("c08-match")
 	defer r.Write()
-	r.Rule = "names: all sequences over {a,b} of length 1..4 (30); patterns: all sequences over {a,b,*,**} of length 1..4 (340); " +
+	r.Rule = "names: all sequences over {a,b} of length 1..4 (30) + 4 edge names; patterns: all sequences over {a,b,*,**} of length 1..4 (340) + 7 edge patterns; " +
 		"pattern sets of size 1, size 2 (every ordered pair = both insertion orders, length<=4) and size 3 (every insertion order; length<=2 quick, <=3 thorough), " +
 		"one shared trie per set matched against all 30 names (plus a fresh trie per pattern/name pair for size 1); " +
 		"filter: run and skip each none or one pattern (341x341), and an ordered pair on one side with none/one on the other (length<=2 quick, <=3 thorough); " +
 		"outcome flags: every pattern as known-failing resp. known-flaky x every name; " +
 		"unmatched detection: pattern sets of size 1 (length<=4) and 2 (both orders; length<=3 quick, <=4 thorough) x every library of <=3 names of length<=3 (470, incl. empty), fresh trie per library. " +
+		"Edge alphabet: names \"\", a/, /a, a//b (in the name list; libraries of <=2 names with at least one of them) and patterns \"\", a//b, /a, a/, */, /**, // (every size-1 and size-2 use above; size 3 and unmatched-detection pairs next to patterns of length 1 resp. <=2): \"\" is one empty component. " +
 		"Oracle: recursive reference glob from the property text. A pattern set counts as non-trivial when both verdicts (match/no match, accept/reject, error/no error) occur over its names/libraries; sets are distinct by construction."
 	if data := rep.ReplayInput(); data != nil {
 		c08ReplayMatchUnit(r, c08ParseReplay(t, data))
@@ -1077,6 +1152,8 @@ func TestVerifC08Ambiguity(t *testing.T) {
 		return
 	}
 	pats := c08AmbiguityPatterns(3, c08Prefix, "**", "*/*")
+	// the empty pattern and patterns with an empty component: they match no permutation, so they must be refused
+	pats = append(pats, "", c08Prefix+"//a", "/"+c08Prefix+"/a", c08Prefix+"/a/")
 	r.Extra["patterns"] = len(pats)
 	deadline := rep.Deadline()
 	var k int64
